@@ -215,10 +215,39 @@ def rule_verify_all_kinds(cx, fb):
     cx.ob("R01.verify-all-kinds", f.id + "|compares-time-updated", len(gt) == 1,
           "source change test must be `time_updated > since`", f.loc())
     g = fb.one(r"pico::execute_memoized_function::derived_node_changed_since$")
-    gt = [t for t in g.calls() if re.search(r"PartialOrd(>)?::gt$", t.declared or "")]
+    gt = [t for t in g.calls() if re.search(r"PartialOrd(>)?::gt$", t.declared or "") and any(
+        "time_updated" in p.fields() for d in local_defs(g, op_place(t.args[0]).local) if hasattr(d, "rv")
+        for p in d.reads())]
     rec = [t for t in g.calls() if term_calls(t, r"execute_memoized_function::execute_memoized_function$")]
     cx.ob("R01.verify-all-kinds", g.id + "|compares-or-reverifies", len(gt) >= 1 and len(rec) >= 1,
           "derived dependency check must compare time_updated and otherwise re-verify the dependency", g.loc())
+    # every "unchanged" verdict and every delegation to re-verification is preceded by the comparison of the
+    # dependency's time_updated with the epoch the parent recorded: DidRecalculate only says whether the
+    # dependency changed *during this verification*, not since the parent last looked
+    false_blocks = [b.i for b in g.blocks for st in b.stmts if st.dst is not None and st.dst.local == 0
+                    and not st.dst.proj and st.ops and (op_const(st.ops[0]) or {}).get("v") is False]
+    targets = [t.bb for t in rec] + false_blocks
+    # a `false` that merely reports the outcome of re-verification is downstream of `rec`; keep those reachable
+    # without passing rec out of the target set
+    after_rec = set()
+    for t in rec:
+        after_rec |= reachable_from(g, t.j["t"]) if t.j.get("t") is not None else set()
+    targets = [b for b in targets if b not in after_rec]
+    pth = path_without(g, 0, targets, [t.bb for t in gt])
+    cx.ob("R01.verify-all-kinds", g.id + "|time_updated-compared-before-unchanged-verdict", pth is None,
+          "a derived dependency can be declared unchanged (or handed to re-verification, whose answer only covers "
+          "this verification) without comparing its time_updated against the epoch recorded by the parent: a "
+          "dependency that was brought up to date earlier, by someone else, is missed", g.loc(),
+          detail=fmt_path(g, pth) if pth else None)
+    for t in gt:
+        try:
+            tt, ft = call_bool_branch(g, t)
+        except AnchorError:
+            continue  # result returned directly
+        vals = [(op_const(st.ops[0]) or {}).get("v") for st in g.blocks[tt].stmts
+                if st.dst is not None and st.dst.local == 0 and st.ops]
+        cx.ob("R01.verify-all-kinds", g.id + "|newer-time_updated-means-changed", vals == [True],
+              "a dependency whose time_updated is newer than recorded must be reported as changed", g.loc(t.line))
 
 
 def rule_counter(cx, fb):
